@@ -44,10 +44,15 @@ pub struct ClientLog { pub puts: Vec<(MerkleHash, usize, usize, usize)>, pub put
 
 pub struct LoggingClient { pub inner: Arc<LocalClient>, pub log: Arc<Mutex<ClientLog>> }
 
+/// while set, `put` and `upload_shard` of every LoggingClient store nothing and report success: what the remote client does
+/// for the uploads of a dry-run session
+pub static DRY_UPLOADS: std::sync::atomic::AtomicBool = std::sync::atomic::AtomicBool::new(false);
+
 #[async_trait::async_trait]
 impl UploadClient for LoggingClient {
     async fn put(&self, prefix: &str, hash: &MerkleHash, data: Vec<u8>, cb: Vec<(MerkleHash, u32)>) -> Result<usize, CasClientError> {
         let (n, len) = (cb.len(), data.len());
+        if DRY_UPLOADS.load(std::sync::atomic::Ordering::SeqCst) { return Ok(0); }
         let r = self.inner.put(prefix, hash, data, cb).await;
         let mut l = self.log.lock().unwrap();
         l.order.push(format!("put {}", hash.hex()));
@@ -65,6 +70,7 @@ impl ReconstructionClient for LoggingClient {
 #[async_trait::async_trait]
 impl RegistrationClient for LoggingClient {
     async fn upload_shard(&self, prefix: &str, hash: &MerkleHash, force: bool, data: &[u8], salt: &[u8; 32]) -> Result<bool, CasClientError> {
+        if DRY_UPLOADS.load(std::sync::atomic::Ordering::SeqCst) { return Ok(true); }
         { let mut l = self.log.lock().unwrap(); l.shards.push(data.len()); l.order.push(format!("shard {}", hash.hex())); }
         self.inner.upload_shard(prefix, hash, force, data, salt).await
     }
@@ -191,6 +197,28 @@ pub fn run_child(ctx: &mut Ctx) {
         let mut world_ptrs: Vec<(PointerFile, Vec<u8>)> = Vec::new();
         let mut pool: Vec<Vec<u8>> = Vec::new();
         let nsessions = rng.range(2, 4);
+        // a third of the worlds start with a DRY RUN of a fresh file (uploads are no-ops and nothing may be remembered as stored);
+        // the file is then uploaded for real in the first session and must be reconstructible like every other file
+        let mut dry_file: Option<Vec<u8>> = None;
+        if rng.chance(1, 2) {
+            let data = { let n = rng.range(2 * target as u64, 30 * target as u64) as usize; rng.bytes(n) };
+            let log = Arc::new(Mutex::new(ClientLog::default()));
+            let xd = xorb_dir.clone();
+            let inner = Arc::new(tp.external_run_async_task(async move { LocalClient::new(&xd, None) }).unwrap().unwrap());
+            let client: Arc<dyn Client + Send + Sync> = Arc::new(LoggingClient { inner, log });
+            let (cfg2, tp2) = (config.clone(), tp.clone());
+            DRY_UPLOADS.store(true, std::sync::atomic::Ordering::SeqCst);
+            let r = tp.external_run_async_task(async move {
+                let session = FileUploadSession::new_with_client_dry_run(cfg2, tp2, client).await?;
+                let mut cl = session.start_clean("dry".into());
+                cl.add_data(&data).await?;
+                let _ = cl.finish().await?;
+                session.finalize().await.map(|_| data)
+            }).unwrap();
+            DRY_UPLOADS.store(false, std::sync::atomic::Ordering::SeqCst);
+            take_events();
+            match r { Ok(d) => { dry_file = Some(d); ctx.stat("worlds_starting_with_a_dry_run"); }, Err(_) => ctx.stat("dry_run_failed") }
+        }
         for sno in 0..nsessions {
             let replay = format!("{{\"suite\":\"session\",\"seed\":{},\"world\":{},\"session\":{},\"target\":{},\"maxb\":{},\"maxc\":{},\"ingest\":{}}}", ctx.seed, w, sno, target, maxb, maxc, ingest);
             let log = Arc::new(Mutex::new(ClientLog::default()));
@@ -211,6 +239,7 @@ pub fn run_child(ctx: &mut Ctx) {
             if all_known { ctx.stat("sessions_of_fully_deduplicated_new_files"); }
             let nfiles = rng.range(1, 5) as usize;
             let mut specs: Vec<FileSpec> = Vec::new();
+            if sno == 0 { if let Some(d) = dry_file.take() { let l = d.len(); specs.push(FileSpec { data: d, parts: vec![l] }); } }
             for i in 0..nfiles {
                 let spec = if reupload && i < world_files.len() { let d = world_files[rng.below(world_files.len() as u64) as usize].clone(); let l = d.len(); FileSpec { data: d, parts: vec![l] } }
                            else { gen_file(&mut rng, target, &mut pool, &world_files, all_known) };
